@@ -119,6 +119,10 @@ func (x *Exec) pTimeParts(tv, uv Value) (t, u pTimeParts, ok bool) {
 		st := x.st
 		wall := x.toTerm(s[0], 64)
 		ext := x.toTerm(s[1], 64)
+		if st.p2Bound(wall, 0) <= pTNsecMask {
+			// no monotonic reading, no wall seconds: (ext, nsec) is the time
+			return pTimeParts{mono: st.fls, ext: ext, sec: ext, nsec: st.Extract(wall, pTNsecShift-1, 0)}
+		}
 		mono := st.Eq(st.Extract(wall, 63, 63), st.Const(1, 1))
 		// wall seconds: wall<<1>>(nsecShift+1) = bits 62..30
 		wsec := st.Bin(OpBvAdd, st.ZExt(st.Extract(wall, 62, pTNsecShift), 64-33), st.Const(64, pTWallToInt))
